@@ -24,10 +24,11 @@ import (
 )
 
 type c16Case struct {
-	Mode string `json:"mode"` // copy | compare-mutations | stream
-	Src  string `json:"src,omitempty"`
-	Dst  string `json:"dst,omitempty"`
-	N    int    `json:"n,omitempty"`
+	Mode        string `json:"mode"` // copy | compare-mutations | stream
+	Src         string `json:"src,omitempty"`
+	Dst         string `json:"dst,omitempty"`
+	N           int    `json:"n,omitempty"`
+	EOFWithData bool   `json:"eof_with_data,omitempty"`
 }
 
 // bigFS is a synthetic read-only fs.FS holding one large file generated on the fly (streaming path).
@@ -35,6 +36,9 @@ type bigFS struct {
 	name string
 	size int64
 	seed uint64
+	// eofWithData: the last piece is delivered together with io.EOF (as the library's own file handles
+	// do), instead of a separate (0, io.EOF) afterwards (as *os.File does); both are legal for an io.Reader
+	eofWithData bool
 }
 type bigFile struct {
 	fs  *bigFS
@@ -104,6 +108,9 @@ func (f *bigFile) Read(p []byte) (int, error) {
 	}
 	copy(p, prfAt(f.fs.seed, f.pos, n))
 	f.pos += int64(n)
+	if f.fs.eofWithData && f.pos >= f.fs.size {
+		return n, io.EOF
+	}
 	return n, nil
 }
 
@@ -311,7 +318,7 @@ func c16Run(c core.Case, env *core.Env) core.Result {
 		res.Sig(p.Src, p.Dst, core.Hash(t))
 		res.Mark("copy " + p.Src + "->" + p.Dst)
 	case "stream":
-		big := &bigFS{name: "BIG.BIN", size: 64<<20 + 12345, seed: uint64(c.Seed)}
+		big := &bigFS{name: "BIG.BIN", size: 64<<20 + 12345, seed: uint64(c.Seed), eofWithData: p.EOFWithData}
 		st := monstore.NewMem(140 << 20)
 		var dst filesystem.FileSystem
 		var err error
@@ -571,10 +578,10 @@ func init() {
 	core.Register(&core.Check{
 		ID:          "C16",
 		Level:       "exploration",
-		Rule:        "CopyFileSystem from {os directory, fat32, ext4, iso9660 (Rock Ridge), squashfs} into {fat12, fat16, fat32, ext4}: generated trees (directories incl. an empty one, files of 0..100000 bytes around the 32 KiB compare-chunk edges, FAT-legal long names, the excluded names lost+found/.DS_Store present in the source); the re-opened destination is walked by the harness and matched against the source tree by content and exact names, CompareFS must accept the faithful copy in both argument orders and reject one real byte flip; a file above the 64 MiB streaming threshold is copied from a synthetic generator source (thorough); CompareFS on in-memory trees must return nil exactly for equal trees over every single-point mutation (byte flipped at first/middle/last/32 KiB chunk edges +-1, file shortened/lengthened by one, entry missing, extra file, extra empty directory, file<->directory swap, differences only under excluded names, an extra entry sorting first/last in every directory) in both orders, each also with entries bearing the excluded names (as files and as directories) placed in every directory of both sides, of the mutant only and of the original only, and with one side delivering file contents in short reads of varying sizes; non-trivial = a copy compared or a mutation evaluated; distinct = distinct (pairing, tree) / (mutation, iteration)",
+		Rule:        "CopyFileSystem from {os directory, fat32, ext4, iso9660 (Rock Ridge), squashfs} into {fat12, fat16, fat32, ext4}: generated trees (directories incl. an empty one, files of 0..100000 bytes around the 32 KiB compare-chunk edges, FAT-legal long names, the excluded names lost+found/.DS_Store present in the source); the re-opened destination is walked by the harness and matched against the source tree by content and exact names, CompareFS must accept the faithful copy in both argument orders and reject one real byte flip; a file above the 64 MiB streaming threshold is copied from a synthetic generator source that hands out odd-sized pieces and ends either with a separate (0, EOF) or with the last piece and EOF together, as the library's own handles do (one pairing in quick, all in thorough); CompareFS on in-memory trees must return nil exactly for equal trees over every single-point mutation (byte flipped at first/middle/last/32 KiB chunk edges +-1, file shortened/lengthened by one, entry missing, extra file, extra empty directory, file<->directory swap, differences only under excluded names, an extra entry sorting first/last in every directory) in both orders, each also with entries bearing the excluded names (as files and as directories) placed in every directory of both sides, of the mutant only and of the original only, and with one side delivering file contents in short reads of varying sizes; non-trivial = a copy compared or a mutation evaluated; distinct = distinct (pairing, tree) / (mutation, iteration)",
 		Assumptions: []string{"trees are restricted to what every destination can represent (no symlinks, FAT-legal names)", "the destination's own empty lost+found (ext4) is ignored"},
 		MinSigs:     map[string]int{"quick": 150, "thorough": 3000},
-		NeedMarks:   []string{"compare mutations", "copy osdir->fat32", "copy squashfs->ext4", "copy iso9660->fat16", "copy ext4->fat12"},
+		NeedMarks:   []string{"streaming path (file > 64 MiB)", "compare mutations", "copy osdir->fat32", "copy squashfs->ext4", "copy iso9660->fat16", "copy ext4->fat12"},
 		CPUSec:      900,
 		Cases: func(seed int64, tier string) []core.Case {
 			r := gen.New(seed ^ 0xC16)
@@ -593,8 +600,10 @@ func init() {
 			for i := 0; i < 8; i++ {
 				cs = append(cs, core.MkCase(fmt.Sprintf("mutations-%d", i), "compare", r.Int63(), c16Case{Mode: "compare-mutations", N: muts}))
 			}
+			cs = append(cs, core.MkCase("stream-fat32-eof-with-data", "stream", r.Int63(), c16Case{Mode: "stream", Dst: "fat32", EOFWithData: true}))
 			if tier == "thorough" {
-				cs = append(cs, core.MkCase("stream-fat32", "stream", r.Int63(), c16Case{Mode: "stream", Dst: "fat32"}), core.MkCase("stream-ext4", "stream", r.Int63(), c16Case{Mode: "stream", Dst: "ext4"}))
+				cs = append(cs, core.MkCase("stream-fat32", "stream", r.Int63(), c16Case{Mode: "stream", Dst: "fat32"}), core.MkCase("stream-ext4", "stream", r.Int63(), c16Case{Mode: "stream", Dst: "ext4"}),
+					core.MkCase("stream-ext4-eof-with-data", "stream", r.Int63(), c16Case{Mode: "stream", Dst: "ext4", EOFWithData: true}))
 			}
 			return cs
 		},
